@@ -34,7 +34,7 @@ func stuffBits(bits *utils.BitList, wordSize int) *utils.BitList {
 	out := new(utils.BitList)
 	n := bits.Len()
 	mask := (1 << uint(wordSize)) - 2
-	for i := 0; i < n; i += wordSize {
+	for i := 0; i < n || out.Len() == 0; i += wordSize {
 		word := 0
 		for j := 0; j < wordSize; j++ {
 			if i+j >= n || bits.GetBit(i+j) {
